@@ -123,7 +123,9 @@ func predKeywordGlue(si []slotInfo, ch choices) bool {
 	return false
 }
 
-func boolPrefixed(p string) bool { return strings.HasPrefix(p, "true") || strings.HasPrefix(p, "false") }
+func boolPrefixed(p string) bool {
+	return strings.HasPrefix(p, "true") || strings.HasPrefix(p, "false")
+}
 
 func objBoolPfx(o obj) bool {
 	switch o.kind {
